@@ -37,11 +37,15 @@ RULE = ('program = class (LockedMachine / LockedHierarchicalMachine), machine_co
         'model.trigger or the event method) on shared/distinct models, set_state, add_transition, add_states, '
         'add_model with LISTS (a registered model first / last / repeated inside the list, new models, with and without '
         'model_context, bare object or list) and remove_model; callbacks (prepare_event/before/after/finalize) raise or '
-        'call the machine again (nested events on any model, set_state, add_transition; depth <= 2). Streams: std (60%%: '
-        'registration calls only move spare models but their lists also name registered event targets), setup (33%%: an extra '
+        'call the machine again (nested events on any model, set_state, add_transition; depth <= 2). Streams: std (55%%: '
+        'registration calls only move spare models but their lists also name registered event targets), setup (27%%: an extra '
         'thread first runs 2-6 add_model / remove_model calls on the EVENT TARGETS - re-add with another model_context, '
         'remove then add again, targets that only the setup registers - then several threads send events to every target), '
-        'removed (7%%, outside the envelope: events race with remove_model of their model). %d sampled schedules per program '
+        'removed (5%%, outside the envelope: events race with remove_model of their model), restale (about 15%%, at least '
+        'two programs in every twenty whatever the seed: a setup thread runs ALONE remove_model(m) -> an event through m\'s '
+        'stale trigger (leaves an empty defaultdict entry) -> add_model(m again, alone / after a registered model / twice / '
+        'with a new model); then two or more threads send events to m; everything outside the stale call itself must agree '
+        'with the model and satisfy the oracle). %d sampled schedules per program '
         '(random bursts, then two completion passes); thorough tier adds every maximal schedule (no blocked attempts) of '
         'small programs enumerated by the model. Compared per schedule: acquire/release/blocked log of the instrumented '
         'contexts, callback segments (thread, call, slot, model, state seen), result of every call (nested too), final model '
@@ -96,10 +100,14 @@ def gen_program(rng, p):
     """streams: 'std' (events on stable models; add_model / remove_model only move spare models, but lists may
     also name registered event targets), 'setup' (one extra thread first (un)registers the event targets with
     add_model lists / re-adds / remove+add, then several threads send events to every target), 'removed'
-    (out of the envelope: events race with remove_model of their model)."""
+    (out of the envelope: events race with remove_model of their model), 'restale' (a setup thread runs, alone,
+    remove_model(m) -> an event through m's stale trigger (which leaves an empty defaultdict entry behind) ->
+    add_model(m again, possibly in a list); then at least two threads send events to m)."""
     cls = CLASSES[p % len(CLASSES)]
     x = rng.random()
-    stream = 'std' if x < 0.6 else ('setup' if x < 0.93 else 'removed')
+    stream = 'std' if x < 0.6 else ('setup' if x < 0.9 else ('removed' if x < 0.95 else 'restale'))
+    if p % 20 in (7, 16):
+        stream = 'restale'                      # this history shape is part of every run, whatever the seed
     mctx = rng.choice([[], [], [1], [1], [1, 2]])
     if stream == 'removed' and not mctx:
         mctx = [1]
@@ -114,7 +122,7 @@ def gen_program(rng, p):
             targets.append(m)
     spare_reg, spare_new = [], []
     base = len(models)
-    for j in range(rng.choice([0, 1, 2, 2, 3]) if stream != 'removed' else 0):
+    for j in range(rng.choice([0, 1, 2, 2, 3]) if stream not in ('removed', 'restale') else rng.choice([0, 1])):
         r = rng.random() < 0.5
         models.append([base + j, rng.randrange(3), 1 if r else 0, rng.choice([[], [5]]) if r else []])
         (spare_reg if r else spare_new).append(base + j)
@@ -218,8 +226,28 @@ def gen_program(rng, p):
             progs[rng.randrange(nt)].append(spec_new(5, b=rng.randrange(3), ms=[victim], mc=rng.choice([[], [5]]))[0])
         if not any(c[1] == 0 and c[2] == victim for c in calls):
             progs[(t + 1) % nt].append(spec_new(0, victim, rng.randrange(2))[0])
+    stale = []
+    if stream == 'restale':
+        victim = rng.choice(targets)
+        for i in range(2):                                        # events on the victim from two threads
+            progs[i % nt].insert(rng.randint(0, len(progs[i % nt])), spec_new(0, victim, rng.randrange(2))[0])
+        setup = [spec_new(4, ms=[victim])[0]]
+        st = spec_new(0, victim, rng.randrange(2))
+        stale.append(st[0])
+        setup.append(st[0])
+        others = [m for m in targets if m != victim]
+        y = rng.random()
+        lst = [victim]
+        if y < 0.3 and others:
+            lst = [rng.choice(others), victim]                    # a registered model first
+        elif y < 0.5 and spare_new:
+            lst = [victim, spare_new[0]]
+        elif y < 0.6:
+            lst = [victim, victim]
+        setup.append(spec_new(5, b=rng.randrange(3), ms=lst, mc=rng.choice([[], [3], [5], [4, 3]]))[0])
+        progs.append(setup)
     return dict(cls=cls, mctx=mctx, models=models, states=[0, 1, 2], trans=trans, calls=calls, progs=progs,
-                sched=[], mode=0, stream=stream)
+                sched=[], mode=0, stream=stream, stale_calls=stale)
 
 
 def completion_suffix(nt, k=70):
@@ -231,7 +259,7 @@ def completion_suffix(nt, k=70):
 
 
 def gen_schedule(rng, nt, setup_first=False):
-    out = [nt] * 150 if setup_first else []
+    out = [nt] * (150 if setup_first is True else int(setup_first)) if setup_first else []
     pre = len(out)
     style = rng.random()
     n = pre + rng.randint(5, 60)
@@ -253,7 +281,7 @@ def gen_batch(seed, n, tier):
                 break
             rs = random.Random('C06-%d-p%d-s%d' % (seed, p, s))
             c = copy.deepcopy(prog)
-            c['sched'] = gen_schedule(rs, len(c['progs']), c['stream'] == 'setup')
+            c['sched'] = gen_schedule(rs, len(c['progs']), {'setup': True, 'restale': 400}.get(c['stream'], False))
             cases.append(c)
         p += 1
     if tier == 'thorough':
@@ -293,7 +321,7 @@ def exhaustive_cases(seed, nprog, budget):
 
 def gen(rng, i, tier):       # not used (gen_batch), kept for the interface
     prog = gen_program(rng, i)
-    prog['sched'] = gen_schedule(rng, len(prog['progs']), prog['stream'] == 'setup')
+    prog['sched'] = gen_schedule(rng, len(prog['progs']), {'setup': True, 'restale': 400}.get(prog['stream'], False))
     return prog
 
 
@@ -764,7 +792,18 @@ def classify_known(case, model_obs, impl_obs):
         return None
     hier = case['cls'] in HIER
     if not hier and model_left_envelope(case, model_obs):
-        return 'KF-C06-3'
+        if case.get('stream') != 'restale':
+            return 'KF-C06-3'
+        # the stale trigger ran alone (setup thread): everything outside that call must still agree with the model
+        # and satisfy the oracle - only the stale call itself is attributed to KF-C06-3
+        if model_obs is None:
+            model_obs = F.run_model(KIND, [enc(case)])[0]
+        if strip_stale(case, model_obs) != strip_stale(case, impl_obs):
+            return None
+        rest = set(oracle_clauses(case, canon(case, impl_obs)))
+        if not rest:
+            return 'KF-C06-3'
+        return 'KF-C06-2' if rest == {'nested_model_contexts_not_entered'} else None
     if model_obs is not None and canon(case, model_obs) != canon(case, impl_obs):
         return None
     bad = set(oracle_clauses(case, canon(case, impl_obs)))
@@ -780,8 +819,28 @@ def classify_known(case, model_obs, impl_obs):
     return None
 
 
+def strip_stale(case, obs):
+    """the observation without the log entries a thread produced while it was inside one of the case's stale-trigger
+    calls (case['stale_calls']), without the serial and envelope flags"""
+    obs = canon(case, obs)
+    if not isinstance(obs, list) or obs[0] != 1:
+        return obs
+    stale = set(case.get('stale_calls', []))
+    pos = {t + 1: 0 for t in range(len(case['progs']))}
+    log = []
+    for x in obs[1][0]:
+        t = x[1]
+        prog = case['progs'][t - 1] if 1 <= t <= len(case['progs']) else []
+        cur = prog[pos[t]] if t in pos and pos[t] < len(prog) else None
+        if cur not in stale:
+            log.append(x)
+        if x[0] == 4 and x[2] == cur:
+            pos[t] += 1
+    return [log, obs[1][1], obs[1][2]]
+
+
 def in_envelope(case):
-    return case.get('stream', 'std') != 'removed'
+    return case.get('stream', 'std') not in ('removed', 'restale')
 
 
 def stats(case, obs, dist):
